@@ -2,7 +2,7 @@
    non-vacuity examples.  Kept here so that the property files contain statements only. *)
 From Gots Require Import Base.Prelude Model.Pts Model.Scte Model.ScteEnc Spec.Scte35Spec
   Proofs.ScteExpected Proofs.ScteLogical Proofs.ScteDecode Proofs.ScteEncode Proofs.ScteRoundtrip Proofs.ScteSetters
-  Proofs.ScteCanonical Proofs.ScteClean.
+  Proofs.ScteCanonical Proofs.ScteClean Proofs.ScteBuild.
 Import Scte ScteEnc Scte35Spec.
 Local Open Scope N_scope.
 
@@ -97,4 +97,24 @@ Proof.
   { unfold clean_cmd, clean_insert. cbn. repeat split; intros; try discriminate; reflexivity. }
   split; [|intros; discriminate].
   constructor; [|constructor; [|constructor]]; unfold clean_desc; cbn; repeat split; intros; try discriminate; try reflexivity; auto.
+Qed.
+
+(* a section the API can build: timed program splice_insert with break_duration, pts_adjustment, two descriptors *)
+Definition ex_api0 : splice_info :=
+  mksi [] 252 false false 3 0 false 0 8589934591 0 2748 false
+       (Insert 305419896 (Some (mkib true (ProgTimed (Some 8589934591)) (Some (true, 8589934591)) 65535 1 2)))
+       [Seg 4294967295 (Some (mksb (Some [(7, 8589934591)]) (Some 1099511627775) (Some (true, false, true, 2))
+                                   (Multi [(9, [66; 76]); (14, [])]) 52 3 4 (Some (1, 2))));
+        Seg 5 None] [] 0.
+Definition ex_api_crc : N := Eval vm_compute in crc_reg (ser_section_nocrc ex_api0).
+Definition ex_api : splice_info := with_crc ex_api0 ex_api_crc.
+Lemma w_example_api_buildable : api_buildable ex_api.
+Proof.
+  unfold api_buildable. split.
+  { unfold canonical. split.
+    { unfold supported, wf_decode, ex_api, ex_api0. cbn. repeat (split || constructor); cbn; try lia; try discriminate; auto. }
+    repeat split; try reflexivity; try (cbn; lia).
+    - exists []. eexists. split; [reflexivity|]. split; repeat constructor.
+    - discriminate. }
+  repeat split; try reflexivity. repeat constructor.
 Qed.
